@@ -61,10 +61,15 @@ C06_OK ==
     \A n \in Idx :
       LET starts == Cardinality({i \in 1..n : EvOf(i) = "FnStart"})
           ends == Cardinality({i \in 1..n : EvOf(i) = "FnEnd"})
+          \* a hedge policy INSIDE the bulkhead runs several invocations of one execution under one permit, and its abandoned
+          \* attempts may still be running after the permit went back: the log alone does not say who holds a permit then, and the
+          \* bound is left to the trace's acceptance by the model (semaphore occupancy) and the permits probed at quiescence
+          hedgeInside == \E a, b \in 1..Len(cfg.stack) : a < b /\ cfg.stack[a].k = "bh" /\ cfg.stack[a].id = id /\ cfg.stack[b].k = "hg"
+          inside == IF hedgeInside THEN 0 ELSE starts - ends
           \* a standalone permit is held from the return of a successful TryAcquirePermit until ReleasePermit is called
           taken == Cardinality({i \in 1..n : EvOf(i) \in {"BhTake", "BhAcquired"} /\ log[i].ok}) - Cardinality({i \in 1..n : EvOf(i) = "BhReleaseCall"})
           \* only meaningful when every invocation runs under the bulkhead (it is in the stack of every execution)
-      IN starts - ends + taken <= cfg.bhmax[id]
+      IN inside + taken <= cfg.bhmax[id]
 
 \* C04: no invocation starts at an instant strictly after the breaker opened and before its delay elapsed (while it stays
 \* open); in a half-open epoch the executions admitted in that epoch never exceed the trial capacity
